@@ -199,7 +199,7 @@ func callPaths(r *lib.Run) {
 	self := node.ID()
 	// peers whose reported radius the monitor controls: gossip target selection
 	var gpeers []*pnode.Adversary
-	for i := 0; i < 6; i++ {
+	for i := 0; i < 10; i++ {
 		a, err := hub.StartAdversary(pnode.AdvOpts{Key: pnode.NewKey(rng), Addr: pnode.Addr4(10, 0, 6, byte(10+i), 9100), Versions: []uint8{0, 1}, RespTimeout: time.Second})
 		if err != nil {
 			r.FloorMiss("start peer: %v", err)
@@ -247,6 +247,12 @@ func callPaths(r *lib.Run) {
 			if !reportRadius(a, rad) {
 				r.Inconclusive("gossip case %d: radius report not acknowledged", i)
 				return
+			}
+			if crng.Intn(3) == 0 {
+				// the local user adds the same record again (portal_historyAddEnr): a peer that is already known keeps the
+				// radius it reported
+				_, _ = api.AddEnr(a.Self().String())
+				r.Count("gossip_path_known_peer_added_again", 1)
 			}
 			in, b := refInRange(a.ID(), rad, id)
 			plan[a.ID()] = pr{in, b, rad}
@@ -757,7 +763,7 @@ func mustScan(db *pebble.DB) []storeutil.Item {
 func run(r *lib.Run) {
 	pnode.Quiet()
 	r.SetRule("(1) (node id, radius, content id) triples with radii 0,1,2^8+-1,2^9-1,2^9,2^k,max,d,d+-1,byte-reversed d and random, ids random / sharing a prefix with the node / differing in one byte at each of the 32 positions, compared with d<r (d==r don't-care); " +
-		"(2) the call paths on a real node: OFFER verdict codes, store RPC and exported InRange with a radius the monitor sets around the real distance, and gossip target selection with six real peers whose radius reports (real PINGs) the monitor sets around each peer's distance; " +
+		"(2) the call paths on a real node: OFFER verdict codes, store RPC and exported InRange with a radius the monitor sets around the real distance, and gossip target selection with ten real peers (some of them added again through the AddEnr RPC after their report) whose radius reports (real PINGs) the monitor sets around each peer's distance; " +
 		"(3) directed schedules: far puts racing a pruning put that is paused at the store's yield point; (4) put histories of 90..150 puts (1 MB capacity, 12..48 kB values, several prunes) checked after every step: regime A = node id 0 with palindromic ids (little- and big-endian readings coincide, strict oracle), regime B = general ids incl. single-byte, byte-reversed and just-around-the-radius distances. " +
 		"distinct_nontrivial = triples with |d-r|<=2 + call-path cases + histories with >= 1 prune")
 	r.Assume("distance = XOR of node id and content id read as a big-endian 256-bit number (property statement); equality d == r is don't-care for admission")
